@@ -96,7 +96,7 @@ func (r *Run) runChild(exe, scratch string, b int, o BatchOpts) {
 		"GOTRACEBACK=all",
 	)
 	if o.Race {
-		cmd.Env = append(cmd.Env, "GORACE=halt_on_error=0 log_path="+filepath.Join(scratch, fmt.Sprintf("race-b%d", b)))
+		cmd.Env = append(cmd.Env, "GORACE=halt_on_error=0 exitcode=0 log_path="+filepath.Join(scratch, fmt.Sprintf("race-b%d", b)))
 	}
 	cmd.Env = append(cmd.Env, o.Env...)
 	if err := cmd.Start(); err != nil {
@@ -191,6 +191,8 @@ type RaceReport struct {
 
 var lineNoRe = regexp.MustCompile(`:\d+( \+0x[0-9a-f]+)?$`)
 
+var accessHeader = regexp.MustCompile(`^(Previous |)(read|write|atomic read|atomic write|Read|Write|Atomic read|Atomic write) at `)
+
 // ParseRaceLogs parses GORACE log files with the given path prefix glob.
 func ParseRaceLogs(glob string) []RaceReport {
 	files, _ := filepath.Glob(glob)
@@ -242,7 +244,7 @@ func parseRaceBlock(blk string) RaceReport {
 				sections = append(sections, cur)
 				cur = nil
 			}
-			inSection = true
+			inSection = accessHeader.MatchString(l)
 			continue
 		}
 		if strings.HasPrefix(l, "      ") {
